@@ -25,6 +25,11 @@ def entry_sets():
     out.append(([['checked', 'v0']], [V('v0', 0)]))
     out.append(([['checked', 'v0'], ['disabled', 'v1']], [V('v0', 0), V('v1', 1)]))
     out.append(([['href', 'v0']], [V('v0', 0)]))
+    # the same name twice (other case), other names around it
+    out.append(([['Title', 'v0'], ['x', 'v1'], ['title', 'v2']], [V('v0', 0), V('v1', 1), V('v2', 2)]))
+    out.append(([['x', 'v1'], ['Title', 'v0'], ['title', 'v2']], [V('v0', 0), V('v1', 1), V('v2', 2)]))
+    out.append(([['class', 'v0'], ['x', 'v1'], ['CLASS', 'v2']], [V('v0', 0), V('v1', 1), V('v2', 2)]))
+    out.append(([['id', 'v0'], ['ID', 'v1'], ['lang', 'v2']], [V('v0', 0), V('v1', 1), V('v2', 2)]))
     # dict entries (keys lower-case; presence symbolic)
     D = lambda keys: ['d', 'dict', [[k, v, p] for k, v, p in keys]]   # noqa: E731
     out.append(([[None, 'd']], [V('v0', 0), D([['class', 'v0', 0], ['lang', 'en', 1]])]))
